@@ -55,8 +55,17 @@ func c07DependenciesFirst(w *World, wc *wireCtx, r *Report) {
 					}
 				}
 			})
-			if !viaObject || !hasVisitedSet(fn, nil) {
+			if !hasVisitedSet(fn, nil) {
 				continue // only emitters that write each packet once, ahead of its first user (visited set): an ordering device
+			}
+			if !viaObject {
+				// the converse, for the one target in which a member of class type needs the complete type in front of it: the C++
+				// header. (In Python a member's class is looked up when the method runs; only registrations run at import time.)
+				if viaMatch && ga.Lang == "cpp" {
+					n++
+					r.fail(rule, fmt.Sprintf("%s: %s emits the packets of object fields before the packet, like match targets", ga.Lang, fnKey(fn)), w.pos(fn.Pos()), "the emitter puts the packets a match field dispatches to in front of the packet that uses them, but follows object fields only into inline objects: a by-name object member (`Leg firstLeg;`) whose packet is declared later in the DSL is emitted before `struct Leg` - the header does not build")
+				}
+				continue
 			}
 			n++
 			key := fmt.Sprintf("%s: %s emits match targets before the packet, like object targets", ga.Lang, fnKey(fn))
@@ -611,8 +620,8 @@ func isMembershipPredicate(f *ssa.Function) (bool, string) {
 
 // c12OptionValidation: where an option's value is checked against the table's allowed values, the diagnostic sits on the
 // "not a member" edge of a genuine membership predicate applied to (allowed values of that option, the given value).
-func c12OptionValidation(w *World, r *Report) {
-	const rule = "C12/option-values-validated"
+func c12OptionValidation(w *World, r *Report, prop string) {
+	rule := prop + "/option-values-validated"
 	n := 0
 	for _, fn := range parsePhaseFuncs(w) {
 		if fn.Pkg != w.Model {
